@@ -3,7 +3,7 @@ From SG Require Import Base.Prelude Model.AllocLang Model.Alloc Gen.Alloc.
 Open Scope Z_scope.
 
 Inductive c06case :=
-| KRoute (waiting : list Z) (arrivals : list (Z * Z)) (answers : list (option Z)) (app : list (Z * Z))
+| KRoute (waiting : list Z) (arrivals : list (Z * Z * bool)) (answers : list (option Z)) (app : list (Z * Z))
 | KAlloc (c0 : Z) (observed : list Z).
 
 Definition oz_eqb (a b : option Z) : bool := match a, b with Some x, Some y => x =? y | None, None => true | _, _ => false end.
@@ -26,8 +26,10 @@ Definition spec_holds06 (c : c06case) : N :=
   match c with
   | KRoute waiting arrivals answers app =>
     if negb (distinct waiting) then 31%N
-    else if negb (list_eqb oz_eqb (map (fun k => option_map snd (find (fun a => fst a =? k) arrivals)) waiting) answers) then 32%N
-    else if negb (list_eqb pair_eqb (filter (fun a => negb (existsb (Z.eqb (fst a)) waiting)) arrivals) app) then 33%N
+    (* the statement: a requester gets the first message that is a reply (no W-bit) with its system bytes; every other message,
+       primaries of the peer with the same system bytes included, reaches the application once, in arrival order *)
+    else if negb (list_eqb oz_eqb (map (fun k => option_map (fun a => snd (fst a)) (find (fun a => (fst (fst a) =? k) && negb (snd a)) arrivals)) waiting) answers) then 32%N
+    else if negb (list_eqb pair_eqb (map fst (filter (fun a => snd a || negb (existsb (Z.eqb (fst (fst a))) waiting)) arrivals)) app) then 33%N
     else 0%N
   | KAlloc c0 observed =>
     if negb (distinct observed) then 34%N
